@@ -641,6 +641,60 @@ module Ed = struct
     done with End_of_file -> ())
 end
 
+
+(* ---------------- systems domain (C14) ---------------- *)
+module Sy = struct
+  open Systems
+  let cb_name = function CbCreate -> "create" | CbConfigure -> "configure" | CbStart -> "start" | CbUpdate -> "update"
+    | CbPause -> "pause" | CbStop -> "stop" | CbResume -> "resume" | CbDestroy -> "destroy"
+  let st_name = function Uninit -> "uninit" | Inited -> "inited" | Configured -> "configured" | Stopped -> "stopped"
+    | Active -> "active" | Paused -> "paused"
+  let parse_list s = Stdlib.List.filter_map (fun t -> if t = "" then None else Some (nat_of_int (int_of_string t))) (String.split_on_char ',' s)
+  let run () =
+    let st = ref sm_init in
+    let ever : (int * sstate) list ref = ref [] in
+    let dead = ref false and opn = ref 0 in
+    (try while true do
+      let l = input_line stdin in
+      if String.length l >= 4 && String.sub l 0 4 = "====" then
+        (print_endline l; st := sm_init; ever := []; dead := false; opn := 0)
+      else if not !dead then match split_ws l with
+      | [] -> ()
+      | t :: _ when t.[0] = '#' -> ()
+      | opname :: args ->
+        Printf.printf "op %d %s\n" !opn l; incr opn;
+        let o = (match opname, args with
+          | "add", n :: rest ->
+              let prio = ref 0 and grp = ref 0 and b = ref [] and a = ref [] in
+              Stdlib.List.iter (fun tok ->
+                let v = String.sub tok 2 (String.length tok - 2) in
+                match String.sub tok 0 2 with
+                | "p=" -> prio := int_of_string v | "g=" -> grp := int_of_string v
+                | "b=" -> b := parse_list v | "a=" -> a := parse_list v | _ -> ()) rest;
+              ever := !ever @ [(int_of_string n, Uninit)];
+              Some (SAdd (nat_of_int (int_of_string n), { c_before = !b; c_after = !a; c_group = nat_of_int !grp; c_prio = Mg.z_of_int !prio }))
+          | "remove", [n] -> Some (SRemove (nat_of_int (int_of_string n)))
+          | "init", _ -> Some SInit
+          | "update", _ -> Some SUpdate
+          | "setgroup", [g; p] -> Some (SSetGroup (nat_of_int (int_of_string g), Mg.z_of_int (int_of_string p)))
+          | "teardown", _ -> Some STeardown
+          | _ -> None) in
+        (match o with
+         | None -> print_endline "R unknown-op"
+         | Some o ->
+           (match sm_step { !st with slog = [] } o with
+            | Ok s' ->
+              st := s';
+              Printf.printf "E%s\n" (String.concat "" (Stdlib.List.map (fun (n, c) -> Printf.sprintf " %d:%s" (int_of_nat n) (cb_name c)) (Stdlib.List.rev s'.slog)));
+              ever := Stdlib.List.map (fun (n, old) ->
+                match find_sys s'.infos (nat_of_int n) with Some y -> (n, y.s_state) | None -> (n, old)) !ever;
+              Printf.printf "T%s\n" (String.concat "" (Stdlib.List.map (fun (n, s) -> Printf.sprintf " %d=%s" n (st_name s)) !ever));
+              if o = STeardown then dead := true
+            | Err (Throw _) -> print_endline "THROW"; dead := true
+            | Err e -> Printf.printf "ERR %s\n" (err_name e); dead := true))
+    done with End_of_file -> ())
+end
+
 let run_lines f =
   try
     while true do
@@ -657,6 +711,7 @@ let () =
   | _ :: "mgr" :: _ -> Mg.run ()
   | _ :: "mgrspec" :: _ -> MgS.run ()
   | _ :: "worlds" :: _ -> Wd.run ()
+  | _ :: "systems" :: _ -> Sy.run ()
   | _ :: "events" :: _ -> Ed.run false
   | _ :: "eventspec" :: _ -> Ed.run true
   | _ -> prerr_endline "usage: runner <domain>"; exit 2
